@@ -1,6 +1,6 @@
 SPECIFICATION Spec
 CONSTANTS
-  Templates = {"mac_named", "unnamed", "win_ser", "win_snr", "vidpid_only", "foreign", "foreign_mentions", "bluetooth", "name_not_initial", "other_product", "id_not_initial", "name_in_hwid", "id_in_desc", "desc_only", "foreign_name_initial"}
+  Templates = {"mac_named", "unnamed", "win_ser", "win_snr", "vidpid_only", "foreign", "foreign_mentions", "bluetooth", "name_not_initial", "other_product", "id_not_initial", "name_in_hwid", "id_in_desc", "desc_only", "foreign_name_initial", "win_ser_end"}
   Names = {"Lab", "LabX2", "East Wing", "Q7"}
   MaxPorts = 3
 INVARIANT FirstIsListed
